@@ -22,7 +22,8 @@ type UnionBranch struct {
 
 type C06Case struct {
 	Doc      map[string]any `json:"doc"`
-	Mode     string         `json:"mode"` // distinct | union
+	Env      Envelope       `json:"env,omitempty"` // irrelevant options / table representation / repeated execution
+	Mode     string         `json:"mode"`          // distinct | union
 	Items    []SelItem      `json:"items"`
 	Where    *sq.E          `json:"where,omitempty"`
 	Branches []UnionBranch  `json:"branches,omitempty"`
@@ -46,11 +47,20 @@ func init() {
 			"chains, else a sub-multiset of the combined result that is duplicate-free when the last operator is UNION). Non-trivial: >=1 duplicate " +
 			"output row / overlapping branches.",
 		Assumptions: []string{
+			"a third of the cases run inside an envelope that must not change the result: PostgresEscapingDialect / IdiomaticArrays on (the query uses neither double quotes nor brackets), Wrapped() with FROM root.<table>, tables handed over as []map[string]any, and a second execution on the same input object",
 			"branches that share a column name hold the same scalar kind in it; no ORDER BY on a union",
 		},
-		Gen:      genC06,
-		New:      func() any { return &C06Case{} },
-		Check:    func(c any) Result { return checkC06(c.(*C06Case)) },
+		Gen: func(t *rapid.T) any {
+			c := genC06(t).(*C06Case)
+			c.Env = genEnvelope(t, "env")
+			return c
+		},
+		New: func() any { return &C06Case{} },
+		Check: func(c any) Result {
+			r := checkC06(c.(*C06Case))
+			r.Labels = append(r.Labels, c.(*C06Case).Env.Labels()...)
+			return r
+		},
 		Quick:    2500,
 		Thorough: 200000,
 	})
@@ -250,7 +260,7 @@ func checkC06(c *C06Case) Result {
 		}
 		want := dedupRows(all)
 		res.NonTrivial = len(want) < len(all)
-		out := Run(val.CopyMap(c.Doc), c.SQL, Opts{})
+		out := c.Env.Exec(val.CopyMap(c.Doc), c.SQL)
 		res.Execs++
 		if !out.OK() {
 			res.Violation = fmt.Sprintf("%s\n  expected %s\n  got %s", c.SQL, val.JSON(want), out.Describe())
@@ -275,7 +285,7 @@ func checkC06(c *C06Case) Result {
 		}
 		want := dedupRows(all)
 		res.NonTrivial = len(want) < len(all)
-		out := Run(val.CopyMap(c.Doc), c.SQL, Opts{})
+		out := c.Env.Exec(val.CopyMap(c.Doc), c.SQL)
 		res.Execs++
 		if !out.OK() {
 			res.Violation = fmt.Sprintf("%s\n  expected %s\n  got %s", c.SQL, val.JSON(want), out.Describe())
@@ -318,7 +328,7 @@ func checkC06(c *C06Case) Result {
 	res.Labels = append(res.Labels, fmt.Sprintf("branches:%d", len(c.Branches)), "ops:"+ops)
 	res.NonTrivial = overlap
 	lastIsUnion := !c.Branches[len(c.Branches)-1].All
-	out := Run(val.CopyMap(c.Doc), c.SQL, Opts{})
+	out := c.Env.Exec(val.CopyMap(c.Doc), c.SQL)
 	res.Execs++
 	if !out.OK() {
 		res.Violation = fmt.Sprintf("%s\n  expected %s\n  got %s", c.SQL, val.JSON(combined), out.Describe())
